@@ -1,6 +1,6 @@
 (* C14: the software reference helper.FixedPoint agrees with the blocks; the integer specification of the
    product is the floor of the rational product; witnesses outside the guards. *)
-From V Require Import Base.Bits Gen.WireOps Gen.Helpers Gen.Prims Model.Fxp Model.FxpHelper Spec.C14
+From V Require Import Base.Bits Gen.WireOps Gen.Helpers Gen.Prims Model.Fxp Model.FxpHelper Spec.C14 Spec.C14Q
   Proofs.C14.Prims Proofs.C14.Blocks.
 From Coq Require Import QArith Qround.
 Open Scope Z_scope.
